@@ -156,6 +156,14 @@ func zzC05Delete() {
 	zzAssert("C05.reuse.fresh", len(n.PDRIDs) == 0 && len(n.FARIDs) == 0 && len(n.QERIDs) == 0 && len(n.URRIDs) == 0 && len(n.BARIDs) == 0 && len(n.q) == 0)
 	_, ok := z.s.PopBufPkt(2, uint16(z.idA[zzPDR]))
 	zzAssert("C05.reuse.no-old-packet", !ok)
+	// the new session's queue for that PDR id is its own: a packet it buffers comes back alone
+	n.qlen = z.a.qlen // same queue capacity as the sessions this harness builds by hand
+	n.Push(uint16(z.idA[zzPDR]), []byte{0xc0, 0xc1, 0xc2})
+	zzAssert("C05.reuse.queue-holds-own-packet-only", n.Len(uint16(z.idA[zzPDR])) == 1)
+	pkt, ok := z.s.PopBufPkt(2, uint16(z.idA[zzPDR]))
+	zzAssert("C05.reuse.pops-own-packet", ok && len(pkt) == 3 && pkt[0] == 0xc0)
+	_, ok = z.s.PopBufPkt(2, uint16(z.idA[zzPDR]))
+	zzAssert("C05.reuse.nothing-behind-it", !ok)
 	z.bIntact("reuse")
 	zzCover("C05.del.done")
 }
